@@ -151,14 +151,25 @@ macro_rules! __call_iter_methods {
             (($($rem_vars)*) $($rem_fixed)*)
             (($($rem_vars)*) $($rem_fixed)*)
             $item
-            ( $($iters)* (
-                {}
-                if $var == 0 {
-                    $crate::__cim_break!{$fixed}
-                } else {
-                    $var -= 1;
-                }
-            ))
+            (
+                // checked before the next item is produced,
+                // so that the methods before `take` don't run on an item that is never yielded
+                (
+                    {}
+                    if $var == 0 {
+                        $crate::__cim_break!{$fixed}
+                    }
+                )
+                $($iters)*
+                (
+                    {}
+                    if $var == 0 {
+                        $crate::__cim_break!{$fixed}
+                    } else {
+                        $var -= 1;
+                    }
+                )
+            )
             $($rem)*
         }
     );
